@@ -14,6 +14,9 @@
 //!          2 &'static mut [f32], 3 [f32; N]) | 5 ch nfr data*  (dyn Signal, from_iter; ch 0 = mono f32 frames)
 //!          | 6 gkind k {nb fill*nb}*k nids id* cnb cfill*cnb nwr wr* spec   (GraphNode over a star:
 //!          k `Pass` in-nodes -> core; gkind 0 Graph, 1 StableGraph; fill = one f32 per buffer)
+//!          | 7 gkind n {nb fill*nb nwr wr* spec}*n ne {a b}*ne nrem rem* nids id* on   (GraphNode over an
+//!          ARBITRARY inner graph: n nodes (each: its buffers, then a wrapped node spec, recursively), ne edges
+//!          a -> b added in this order, nrem nodes removed afterwards (StableGraph only), input_nodes, output_node)
 //!   out:   nbuf then nbuf*64 bit patterns (initial content of the node's own buffers)
 //!   shape: number of buffers of each input
 //!   call:  `op arg` then the bit patterns of all buffers of all inputs for this call (sum(shape)*64 values).
@@ -290,6 +293,48 @@ macro_rules! star_graph {
     }};
 }
 
+macro_rules! general_graph {
+    ($G:ty, $stable:tt, $c:expr) => {{
+        let c: &mut Cur = $c;
+        let n = c.next() as usize;
+        let mut g = <$G>::with_capacity(n, n);
+        for _ in 0..n {
+            let nb = c.next() as usize;
+            let bufs: Vec<Buffer> = (0..nb).map(|_| filled(c.next())).collect();
+            let node = BoxedNode(node_under_test(c).into_dyn());
+            g.add_node(NodeData::new(node, bufs));
+        }
+        let ne = c.next() as usize;
+        for _ in 0..ne {
+            let a = c.next() as usize;
+            let b = c.next() as usize;
+            g.add_edge(NodeIndex::new(a), NodeIndex::new(b), ());
+        }
+        let nrem = c.next() as usize;
+        for _ in 0..nrem {
+            let a = c.next() as usize;
+            general_graph!(@remove $stable, g, a);
+        }
+        let nids = c.next() as usize;
+        let ids: Vec<NodeIndex> = (0..nids).map(|_| NodeIndex::new(c.next() as usize)).collect();
+        let on = NodeIndex::new(c.next() as usize);
+        GraphNode {
+            processor: Processor::with_capacity(n),
+            graph: g,
+            input_nodes: ids,
+            output_node: on,
+            node_type: PhantomData,
+        }
+    }};
+    (@remove true, $g:ident, $a:expr) => {
+        $g.remove_node(NodeIndex::new($a));
+    };
+    (@remove false, $g:ident, $a:expr) => {{
+        let _ = $a;
+        panic!("node removal is only supported on StableGraph")
+    }};
+}
+
 fn base(c: &mut Cur) -> Base {
     match c.next() {
         1 => Base::Sum(Sum),
@@ -351,6 +396,10 @@ fn base(c: &mut Cur) -> Base {
             0 => Base::G(star_graph!(InnerG, c)),
             _ => Base::SG(star_graph!(InnerSG, c)),
         },
+        7 => match c.next() {
+            0 => Base::G(general_graph!(InnerG, false, c)),
+            _ => Base::SG(general_graph!(InnerSG, true, c)),
+        },
         k => panic!("unknown node kind {}", k),
     }
 }
@@ -400,7 +449,7 @@ fn catch_here<T>(g: impl FnOnce() -> T) -> Result<T, i64> {
             .or_else(|| p.downcast_ref::<String>().cloned())
             .unwrap_or_default();
         // Option::expect in GraphNode::process: the model's PExpect
-        if msg.contains("no node for graph node") {
+        if msg.contains("no node for graph node") || msg.contains("no node exists for the given index") {
             4
         } else {
             panic_code(&p)
